@@ -172,7 +172,8 @@ def borrow(ctx, chk, rid, kind, text, module, rules, floor=1):
     sibling's rule code is run silently and the verdicts of the named rules are re-filed under `rid` (a property whose
     statement includes a clause another property spells out in detail must not depend on that other check being run)."""
     import importlib
-    chk.rule(rid, kind, text, floor=floor)
+    if rid not in chk.rules:        # a clause may borrow from several siblings: one rule entry, verdicts added up
+        chk.rule(rid, kind, text, floor=floor)
     mod = importlib.import_module('gbsa.rules.' + module)
     sub = Check(module.upper(), chk.tier)
     sub.silent = True
